@@ -44,14 +44,14 @@ TLSs     == <<"", "thread_local ", "thread_local(localdynamic) ", "thread_local(
 UAddrs   == <<"", "unnamed_addr ", "local_unnamed_addr ">>
 
 GV == Fam("gv",
-  "$g = comdat any\n$c = comdat largest\n!0 = !{i32 1}\n",
+  "$g = comdat any\n$c = comdat largest\n!0 = !{i32 1}\n!1 = !{i32 2}\n",
   "@g = {linkage}{preempt}{vis}{dll}{tls}{uaddr}{as}{extinit}{kind} {ty}{init}{section}{partition}{comdat}{align}{md}\n",
   << Slot("linkage", Linkages), Slot("preempt", Preempts), Slot("vis", Visibs), Slot("dll", DLLs), Slot("tls", TLSs),
      Slot("uaddr", UAddrs), Slot("as", <<"", "addrspace(1) ">>), Slot("extinit", <<"", "externally_initialized ">>),
      Slot("kind", <<"global", "constant">>),
      Slot("section", <<"", ", section \"my sec\"">>), Slot("partition", <<"", ", partition \"part\"">>),
      Slot("comdat", <<"", ", comdat", ", comdat($c)">>), Slot("align", <<"", ", align 8", ", align 4294967296">>),
-     Slot("md", <<"", ", !foo !0", ", !foo !0, !bar !0">>) >>,
+     Slot("md", <<"", ", !foo !0", ", !foo !0, !bar !0", ", !type !0, !type !1, !foo !1">>) >>,
   { <<"linkage", "vis">>, <<"linkage", "preempt">>, <<"linkage", "dll">>, <<"linkage", "tls">>, <<"linkage", "comdat">>, <<"vis", "preempt">> },
   FALSE)
 
@@ -97,7 +97,7 @@ PtrParamAttrs == <<"", " byval(i32)", " byref(i32)", " preallocated(i32)", " ina
                    " \"k\"", " \"k\"=\"v\"", " alignstack(8)">>
 
 FN == Fam("fn",
-  "$f = comdat any\n$c = comdat any\n!0 = !{i32 1}\ndeclare i32 @pers(...)\nattributes #0 = { nounwind }\nattributes #1 = { cold \"a\"=\"b\" }\n",
+  "$f = comdat any\n$c = comdat any\n!0 = !{i32 1}\n!1 = !{i32 2}\ndeclare i32 @pers(...)\nattributes #0 = { nounwind }\nattributes #1 = { cold \"a\"=\"b\" }\n",
   "define {linkage}{preempt}{vis}{dll}{cc}{retattr}i32 @f(i32{pattr} %x, i32*{ppattr} %p, i8* %q){uaddr}{as}{fnattr}{section}{partition}{comdat}{align}{gc}{prefix}{prologue}{personality}{md} {\n  ret i32 %x\n}\n",
   << Slot("linkage", <<"", "private ", "internal ", "available_externally ", "linkonce ", "weak ", "linkonce_odr ", "weak_odr ", "external ">>),
      Slot("preempt", Preempts), Slot("vis", Visibs), Slot("dll", <<"", "dllexport ">>), Slot("cc", CCs), Slot("retattr", RetAttrs),
@@ -105,7 +105,7 @@ FN == Fam("fn",
      Slot("section", <<"", " section \"s\"">>), Slot("partition", <<"", " partition \"p\"">>), Slot("comdat", <<"", " comdat", " comdat($c)">>),
      Slot("align", <<"", " align 16">>), Slot("gc", <<"", " gc \"shadow-stack\"">>), Slot("prefix", <<"", " prefix i32 1">>),
      Slot("prologue", <<"", " prologue i32 2">>), Slot("personality", <<"", " personality i8* bitcast (i32 (...)* @pers to i8*)">>),
-     Slot("md", <<"", " !foo !0", " !foo !0 !bar !0">>) >>,
+     Slot("md", <<"", " !foo !0", " !foo !0 !bar !0", " !type !0 !type !1 !foo !1">>) >>,
   { <<"linkage", "vis">>, <<"linkage", "preempt">> },
   FALSE)
 FNValid(c) ==
@@ -118,9 +118,9 @@ FNValid(c) ==
 
 \* declarations
 FD == Fam("fd",
-  "!0 = !{i32 1}\nattributes #0 = { nounwind }\nattributes #1 = { cold }\n",
+  "!0 = !{i32 1}\n!1 = !{i32 2}\nattributes #0 = { nounwind }\nattributes #1 = { cold }\n",
   "declare {md}{linkage}{preempt}{vis}{dll}{cc}{retattr}i8* @f(i32{pattr}, i32*{ppattr}, ...){uaddr}{as}{fnattr}{align}{gc}{prefix}{prologue}\n",
-  << Slot("md", <<"", "!foo !0 ", "!foo !0 !bar !0 ">>), Slot("linkage", <<"", "extern_weak ", "external ">>), Slot("preempt", Preempts), Slot("vis", Visibs),
+  << Slot("md", <<"", "!foo !0 ", "!foo !0 !bar !0 ", "!type !0 !type !1 !foo !1 ">>), Slot("linkage", <<"", "extern_weak ", "external ">>), Slot("preempt", Preempts), Slot("vis", Visibs),
      Slot("dll", DLLs), Slot("cc", <<"", "x86_stdcallcc ", "cc 10 ">>), Slot("retattr", PtrRetAttrs), Slot("pattr", ParamAttrs), Slot("ppattr", PtrParamAttrs),
      Slot("uaddr", UAddrs), Slot("as", <<"", " addrspace(1)">>), Slot("fnattr", <<"", " nounwind", " #0", " #0 #1">>),
      Slot("align", <<"", " align 16">>), Slot("gc", <<"", " gc \"statepoint-example\"">>), Slot("prefix", <<"", " prefix i32 1">>),
@@ -376,6 +376,9 @@ MODLVL == Fam("mod",
        "define void ()* @r() {\n  ret void ()* null\n}\n@i = dso_local ifunc void (), void ()* ()* @r, partition \"p\"",
        "attributes #0 = { nounwind }\nattributes #7 = { \"a\" \"b\"=\"c\" align=8 alignstack=16 uwtable }\ndeclare void @f() #0\ndeclare void @g() #7",
        "define void @f() unnamed_addr jumptable {\n  ret void\n}",
+       "declare void @kr(...)\ndeclare i32 @pers(...)\ndefine void @c(i32 %x, i8* %p, void (i32)* %fp) personality i8* bitcast (i32 (...)* @pers to i8*) {\n  call void bitcast (void (...)* @kr to void (i32, i8*)*)(i32 %x, i8* %p)\n  call void %fp(i32 %x)\n  call void inttoptr (i64 4096 to void (i32)*)(i32 1)\n  %r = call i32 bitcast (void (...)* @kr to i32 (i8*)*)(i8* %p)\n  invoke void bitcast (void (...)* @kr to void (i32)*)(i32 %r)\n          to label %ok unwind label %lp\nok:\n  ret void\nlp:\n  %l = landingpad { i8*, i32 }\n          cleanup\n  ret void\n}",
+       "declare void @llvm.dbg.value(metadata, metadata, metadata)\ndefine i32 @f(i32 %a) {\n  %s = add i32 %a, 1\n  call void @llvm.dbg.value(metadata !DIArgList(i32 %a, i32 %s), metadata !0, metadata !DIExpression(DW_OP_LLVM_arg, 0, DW_OP_LLVM_arg, 1, DW_OP_plus))\n  ret i32 %s\n}\ndefine i32 @g(i32 %a) {\n  %s = mul i32 %a, 3\n  call void @llvm.dbg.value(metadata !DIArgList(i32 %a, i32 %s), metadata !0, metadata !DIExpression(DW_OP_LLVM_arg, 0, DW_OP_LLVM_arg, 1, DW_OP_plus))\n  call void @llvm.dbg.value(metadata i32 %a, metadata !0, metadata !DIExpression())\n  ret i32 %s\n}\n!0 = !{}",
+       "@vt = constant [2 x i8*] zeroinitializer, !type !0, !type !1, !type !0\ndeclare !type !0 !type !1 void @d()\ndefine void @e() !type !1 !type !0 {\n  %x = load i8*, i8** undef, !foo !0, !bar !1\n  ret void\n}\n!0 = !{i64 0, !\"a\"}\n!1 = !{i64 8, !\"b\"}",
        "define void @f() addrspace(1) {\n  ret void\n}\n@p = global void () addrspace(1)* @f\n@q = global [1 x i8 addrspace(1)*] [i8 addrspace(1)* bitcast (void () addrspace(1)* @f to i8 addrspace(1)*)]\ndefine void () addrspace(1)* @g() {\n  call addrspace(1) void @f()\n  ret void () addrspace(1)* @f\n}",
        "define void @d() addrspace(2) {\n  ret void\n}\n@a = alias void (), void () addrspace(2)* @d\n@g = addrspace(3) global i32 0\n@h = global i32 addrspace(3)* @g\ndefine i32 @u() {\n  %v = load i32, i32 addrspace(3)* @g\n  ret i32 %v\n}",
        "declare i8* @m(i32, i32) allocsize(1, 0)\ndeclare i8* @n(i32, i32) allocsize(0)\ndefine i8* @c() {\n  %r = call i8* @m(i32 1, i32 2) allocsize(1, 0)\n  ret i8* %r\n}\nattributes #0 = { allocsize(1, 0) vscale_range(1,1) alignstack=1 }\ndeclare i8* @o(i32, i32) #0",
@@ -523,6 +526,10 @@ SPELL == Fam("spell",
        "!0 = !DIEnumerator(isUnsigned: true, value: 18446744073709551615, name: \"MAX\")\n!1 = !DIEnumerator(value: -9223372036854775808, name: \"MIN\")\n!e = !{!0, !1}",
        "@\"007\" = global i32 0\n@\"00\" = global i32* @\"007\"\ndefine i32 @\"010\"(i32 %\"01\") {\n\"0010\":\n  br label %\"08\"\n\"08\":\n  ret i32 %\"01\"\n}",
        "@a = global i64 9223372036854775808\n@b = global i64 18446744073709551615\n@c = global i64 u0x8000000000000000\n@d = global i64 u0xFFFFFFFFFFFFFFFF\n@e = global i128 u0xFFFFFFFFFFFFFFFFFFFFFFFFFFFFFFFF\n@f = global i64 -9223372036854775808\n@g = global i32 u0xFFFFFFFF\n@h = global i16 u0x8000",
+       "@0 = global i32 0\n@1 = alias i32, i32* @0\ndefine i32* @2() {\n  ret i32* @1\n}\n@3 = ifunc i32* (), i32* ()* ()* @r\n@4 = global i32* ()* @3\ndefine i32* ()* @r() {\n  ret i32* ()* @2\n}",
+       "define void @0() {\n  call void @1()\n  ret void\n}\ndefine void @1() {\n  ret void\n}\n@2 = alias void (), void ()* @0\n@3 = global void ()* @2\n@4 = alias void (), void ()* @1",
+       "declare void @f()\ndefine void @g(i32* %p) {\n  %a = alloca i32, i32 1\n  %b = alloca i32, i32 1, align 4\n  %c = alloca i32, i64 1\n  call ccc void @f()\n  %l = load i32, i32* %p, align 4\n  store i32 %l, i32* %a, align 4\n  ret void\n}",
+       "@g = default global i32 0\n@h = external dso_preemptable global i32\n@i = external default global i32, align 1\ndeclare default void @d()\ndefine dso_preemptable default ccc void @e() addrspace(0) {\n  ret void\n}\n@a = external alias i32, i32* @g",
        "!0 = !DISubrange(upperBound: 9, lowerBound: 1)\n!1 = !DIFile(directory: \"/d\", filename: \"f.c\")\n!2 = !DIBasicType(encoding: DW_ATE_signed, size: 32, name: \"int\")\n!e = !{!0, !1, !2}"
      >>) >>,
   {}, FALSE)
